@@ -262,7 +262,7 @@ class Run:
     def main(self):
         quick = self.tier == "quick"
         enabled = self.probes()
-        n, lo, hi, nmem = (48, 150, 300, 24) if quick else (480, 150, 900, 160)
+        n, lo, hi, nmem = (48, 150, 300, 24) if quick else (640, 150, 900, 200)
         paths = self.generate(n, lo, hi, enabled)
         with cf.ThreadPoolExecutor(max_workers=16) as ex:
             futs = [ex.submit(self.run_script, p, True, i < nmem) for i, p in enumerate(paths)]
@@ -270,7 +270,7 @@ class Run:
                 self.absorb(f.result())
         if not quick and os.path.exists(CAPI + "/amc_miri/Cargo.toml"):
             mp = []
-            for i in range(8):
+            for i in range(10):
                 s = self.seed * 100003 + 900000 + i
                 p = "%s/m%02d.script" % (self.dir, i)
                 rc, out, err = sh([sys.executable, CAPI + "/gen.py", "--seed", str(s), "--ops", "70"])
